@@ -52,6 +52,9 @@ class Tr:
         m = re.fullmatch(r'Rc::clone\(&?(\w+)\)', e) or re.fullmatch(r'&(\w+)', e) or re.fullmatch(r'\*(\w+)', e)
         if m:
             return v(m.group(1))
+        m = re.fullmatch(r'&?(\w+)\.unwrap_or(?:_else)?\((?:\|\| )?Rc::clone\(&?(\w+)\)\)', e)
+        if m and m.group(1) in self.opts:
+            return f'(opt_or {v(m.group(1))} {v(m.group(2))})'
         m = re.fullmatch(r'&?(\w+)\.unwrap\(\)', e)
         if m:
             if m.group(1) not in self.opts:
@@ -99,10 +102,63 @@ class Tr:
         return body
 
     def result(self, e):
-        """value of the function: `None` | `Some(EXPR)`"""
+        """value of the function: `None` | `Some(EXPR)` | `OPT.map(|x| EXPR)` | `match (A, B) { .. }`"""
         e = e.strip()
         if e == 'None':
             return 'IUnchanged'
+        m = re.fullmatch(r'instantiate_internal\(&?(\w+), vars, plugs\)\.map\(\|(\w+)\| (.*)\)', e)
+        if m:
+            y, x, body = m.groups()
+            pre = []
+            b = self.expr(body, pre)
+            return (f'match gen_inst_internal {v(y)} vars plugs with IPanic => IPanic | IUnchanged => IUnchanged '
+                    f'| IChanged {v(x)} => {self.wrap(pre, "IChanged " + b)} end')
+        m = re.fullmatch(r'(\w+)\.map\(\|(\w+)\| (.*)\)', e)
+        if m and m.group(1) in self.opts:
+            o, x, body = m.groups()
+            pre = []
+            b = self.expr(body, pre)
+            return f'match {v(o)} with Some {v(x)} => {self.wrap(pre, "IChanged " + b)} | None => IUnchanged end'
+        m = re.fullmatch(r'match \((\w+), (\w+)\) \{ (.*) \}', e)
+        if m and m.group(1) in self.opts and m.group(2) in self.opts:
+            a, b2 = m.group(1), m.group(2)
+            code = None
+            chain = []
+            for pat, text, is_block in split_arms(m.group(3)):
+                pm = re.fullmatch(r'\((.*), (.*)\)', pat)
+                if not pm:
+                    fail('tuple match arm: ' + pat)
+                conds, binds = [], []
+                saved = set(self.opts)
+                for scrut, comp in ((a, pm.group(1).strip()), (b2, pm.group(2).strip())):
+                    if comp == 'None':
+                        conds.append(f'(is_none {v(scrut)})')
+                    elif comp == '_':
+                        pass
+                    elif re.fullmatch(r'Some\((\w+)\)', comp):
+                        x = comp[5:-1]
+                        conds.append(f'(negb (is_none {v(scrut)}))')
+                        binds.append((x, f'(opt_or {v(scrut)} {v(scrut.replace("inst_", ""))})', False))
+                        fail('Some(x) components in a tuple match are not supported')
+                    elif re.fullmatch(r'\w+', comp):
+                        binds.append((comp, v(scrut), True))
+                        self.opts.add(comp)
+                    else:
+                        fail('tuple match component: ' + comp)
+                body = self.block(split_stmts(text) if is_block else [text], None)
+                for x, val, _ in reversed(binds):
+                    if v(x) != val:
+                        body = f'let {v(x)} := {val} in {body}'
+                self.opts = saved | {x for x, _, isopt in binds if isopt}
+                chain.append((' && '.join(conds) if conds else None, body))
+                if not conds:
+                    break
+            if not chain or chain[-1][0] is not None:
+                fail('tuple match without a catch-all arm')
+            code = chain[-1][1]
+            for c, body in reversed(chain[:-1]):
+                code = f'if ({c}) then {body} else {code}'
+            return code
         m = re.fullmatch(r'Some\((.*)\)', e)
         if m and match_close(e, 4) == len(e) - 1:
             pre = []
@@ -172,6 +228,19 @@ class Tr:
             if not (v1 == v2 == v3) or meth not in JUDGE or not self.is_panic(body):
                 fail('odd constraint scan: ' + s[:120])
             return f'match check_all {JUDGE[meth]} plugs {v(pos)} {v(lst)} with Some true => {after()} | _ => IPanic end'
+        m = re.fullmatch(r'let (\w+) = vars\.iter\(\)\.position\(\|&(\w+)\| (\w+) == \*(\w+)\)\?', s)
+        if m:
+            pos, x1, x2, idv = m.groups()
+            if x1 != x2:
+                fail('odd position closure: ' + s[:120])
+            return f'match position {v(idv)} vars with Some {v(pos)} => {after()} | None => IUnchanged end'
+        # constraint scan written as a loop
+        m = re.fullmatch(r'for (\w+) in (\w+)(?:\.iter\(\))? \{ if !plugs\[(\w+)\]\.(\w+)\(\*(\w+)\) \{ (.*) \} \}', s)
+        if m:
+            v1, lst, pos, meth, v2, body = m.groups()
+            if v1 != v2 or meth not in JUDGE or not self.is_panic(body):
+                fail('odd constraint loop: ' + s[:120])
+            return f'match check_all {JUDGE[meth]} plugs {v(pos)} {v(lst)} with Some true => {after()} | _ => IPanic end'
         # position lookup
         m = re.fullmatch(r'if let Some\((\w+)\) = vars\.iter\(\)\.position\(\|&(\w+)\| (\w+) == \*(\w+)\) \{ (.*) \}', s)
         if m and match_close(s, s.index('{')) == len(s) - 1:
@@ -234,7 +303,7 @@ def coq_pattern(pat):
     m = re.fullmatch(r'Pattern::(\w+)\((\w+)\)', pat)
     if m and m.group(1) in TUPLE:
         return m.group(1), f'{TUPLE[m.group(1)]} {"_" if m.group(2) == "_" else v(m.group(2))}'
-    m = re.fullmatch(r'Pattern::(\w+) \{ (.*) \}', pat)
+    m = re.fullmatch(r'Pattern::(\w+) \{ ?(.*?) ?\}', pat)
     if m and m.group(1) in FIELDS:
         c, names = FIELDS[m.group(1)]
         given = [x.strip() for x in m.group(2).split(',')]
@@ -288,6 +357,7 @@ def generate(repo):
              '(** a non-panicking result as the Rust [Option] *)',
              'Definition ires_opt (r:ires) : option pat := match r with IChanged q => Some q | _ => None end.',
              'Definition is_none (o:option pat) : bool := match o with None => true | Some _ => false end.',
+             'Definition opt_or (o:option pat) (d:pat) : pat := match o with Some q => q | None => d end.',
              '(** [vars.iter().position(|&x| x == id)] *)',
              'Fixpoint position (id:N) (vars:list N) : option nat :=',
              '  match vars with [] => None | v::vs => if N.eqb v id then Some O else option_map S (position id vs) end.',
